@@ -249,7 +249,14 @@ def deep_dict(rng, depth=0):
     return FD(d)
 
 
+ALIASES = {'filter': 'where', 'map': 'select', 'reduce': 'aggregate', 'limit': 'take', 'intByList': 'timesInt'}
+
+
 def gen_op(rng, name, c):
+    if name in ALIASES:
+        a = gen_op(rng, ALIASES[name], c)
+        a['alias'] = name
+        return a
     P, S, K = (lambda: lam_for(rng, c.profile, 'pred')), (lambda: lam_for(rng, c.profile, 'sel')), (lambda: lam_for(rng, c.profile, 'key'))
     a = {'op': name}
     if name in ('where', 'takeWhile', 'skipWhile', 'indexWhere', 'lastIndexWhere', 'splitWhere'):
@@ -327,6 +334,15 @@ def gen_op(rng, name, c):
         a['n'] = 40
         if not a['b'] and a['l2'][0] in ('mul', 'mod'):
             a['b'] = True
+    elif name == 'generateManyTake':
+        a['l'] = rng.choice([['pair', ['add', ARG, 1], ['mul', ARG, 2]], ['pair', ['add', ARG, 1], ['add', ARG, 1]],
+                             ['mul', ['pair', ['add', ARG, 1], ['const', 0]], rng.choice([0, 1, 2])], ['const', ()],
+                             ['pair', ['mod', ['add', ARG, 1], 3], ['mod', ['add', ARG, 2], 4]], ['add', ARG, 1],
+                             ['pair', ARG, ['const', None]]])
+        a['l2'] = rng.choice([None, None, ['mul', ARG, 10], ['pair', ARG, ARG], ['gt', ARG, 2]])
+        a['b'] = rng.random() < 0.5
+        a['b2'] = rng.random() < 0.4
+        a['n'] = rng.randrange(-1, 9)
     elif name == 'listLit':
         a['vs'] = few(rng, lambda: some_elem(rng, c), 0, 2)
     elif name == 'toDict':
@@ -412,8 +428,8 @@ DICT_OPS = ['attr', 'index', 'indexDflt', 'get', 'dictSet', 'dictSetMany', 'dict
 SET_OPS = ['union', 'intersect', 'difference', 'minus', 'symmetricDifference', 'add', 'remove', 'setCmp', 'len',
            'contains', 'in', 'toSet', 'count', 'isSet', 'plusRight']
 SOURCE_OPS = ['range1', 'range3', 'sequenceTake']
-SCALAR_OPS = ['generate', 'repeatTake', 'listLit', 'list', 'set', 'isIterable']
-ALL_OPS = sorted(set(ITER_OPS + SEQ_OPS + ORD_OPS + DICT_OPS + SET_OPS + SOURCE_OPS + SCALAR_OPS))
+SCALAR_OPS = ['generate', 'generateManyTake', 'repeatTake', 'listLit', 'list', 'set', 'isIterable']
+ALL_OPS = sorted(set(ITER_OPS + SEQ_OPS + ORD_OPS + DICT_OPS + SET_OPS + SOURCE_OPS + SCALAR_OPS)) + sorted(ALIASES)
 
 RESULT_KIND = {}
 for _n in ALL_OPS:
@@ -452,6 +468,10 @@ for _n in ORD_OPS:
 for _n in SOURCE_OPS:
     RECEIVERS[_n] = ['scalar']
 RECEIVERS['generate'] = ['scalar']
+RECEIVERS['generateManyTake'] = ['scalar']
+for _a, _b in ALIASES.items():
+    RECEIVERS[_a] = RECEIVERS[_b]
+    RESULT_KIND[_a] = RESULT_KIND[_b]
 
 
 PREF_PROFILE = {
@@ -486,7 +506,7 @@ def pipeline(rng, fname, max_ops=4):
     pre = []
     if fname in ORD_OPS:
         pre = ['orderBy' if rng.random() < 0.6 else 'orderByDescending']
-    elif fname in SOURCE_OPS or fname == 'generate':
+    elif fname in SOURCE_OPS or fname in ('generate', 'generateManyTake'):
         pre = []
     elif rng.random() < 0.25:
         # the function under test is not the first stage
@@ -501,7 +521,7 @@ def pipeline(rng, fname, max_ops=4):
     want = RECEIVERS.get(first, ['list'])
     kind = rng.choice(want) if rng.random() < 0.93 else None
     prof = None
-    if fname == 'generate':
+    if fname in ('generate', 'generateManyTake'):
         kind, prof = 'scalar', 'ints'
     if fname in ('dict',) and rng.random() < 0.8:
         prof = 'pairs'
@@ -513,11 +533,13 @@ def pipeline(rng, fname, max_ops=4):
     if fname == 'single' and not pre and rng.random() < 0.5 and kind in ('list', 'iter'):
         one = elems(rng, prof, 1)
         value = tuple(one) if kind == 'list' else Iter(one)
-    if fname == 'generate':
+    if fname in ('generate', 'generateManyTake'):
         value = rng.choice([0, 1, 2])
     c = Ctx(kind, prof, value)
     ops = [gen_op(rng, n, c) for n in pre + [fname]]
     cur = RESULT_KIND[fname]
+    if fname in ALIASES and fname in ('reduce',):
+        cur = 'scalar'
     if fname in ('memorize', 'defaultIfEmpty') and not pre:
         cur = kind if kind in ('list', 'set') else 'lazy'
     if fname == 'attr' and kind != 'dict':
@@ -531,7 +553,7 @@ def pipeline(rng, fname, max_ops=4):
         if not cand:
             break
         n = rng.choice(cand)
-        if n in SOURCE_OPS or n == 'generate':
+        if n in SOURCE_OPS or n in ('generate', 'generateManyTake'):
             continue
         ops.append(gen_op(rng, n, c))
         cur = RESULT_KIND[n]
